@@ -1,5 +1,6 @@
 use super::{
     SolverState,
+    cache::try_join_all_fail_fast,
     clause::{Clause, WatchedLiterals},
 };
 use crate::{
@@ -508,7 +509,7 @@ impl<'a, D: DependencyProvider> Encoder<'a, D> {
         let cache = self.cache;
         let query_requirements_candidates = async move {
             let candidates =
-                futures::future::try_join_all(requirement.version_sets(cache.provider()).map(
+                try_join_all_fail_fast(requirement.version_sets(cache.provider()).map(
                     |version_set| cache.get_or_cache_sorted_candidates_for_version_set(version_set),
                 ))
                 .await?;
